@@ -223,6 +223,12 @@ def check_subst(s, mapping, env, env_names, getonly=False):
         kinds = {"syntax" if p == "syntax" else "missing" for p in problems}
         if got[0] not in kinds:
             return ("subst:accepted-but-invalid", "got %r want one of %r" % (got, kinds))
+        if got[0] != want[0]:
+            # zone U8, pinned: problems are reported in scanning order, left to right (the pinned
+            # tree's behaviour; no document promises an order)
+            return ("subst:wrong-error-class:pinned-order-U8", "got %s, the first problem from the left is %s" % (got[0], want[0]))
+        if got[0] == "missing" and str(got[1].name).lower() != str(want[1]).lower():
+            return ("subst:error-name:pinned-order-U8", "name %r, the first undefined reference from the left is %r" % (got[1].name, want[1]))
         if got[0] == "missing":
             names = {p[1].lower() for p in problems if p != "syntax"}
             if str(got[1].name).lower() not in names:
@@ -438,6 +444,20 @@ def run_shard(spec):
                     if n == 2:
                         _run_string(res, ":".join(t))
             res.exhaustive_parts.append("all concatenations of 2 and 3 references drawn from %r" % (refs,))
+            # characters that are letters only to case-insensitive or Unicode-aware matching (dotted
+            # and dotless i, long s, Kelvin and Angstrom signs, micro sign, sharp s, ligatures,
+            # combining and full-width forms, non-ASCII digits) in every position of a reference
+            specials = "\u0130\u0131\u017f\u212a\u212b\u00b5\u00df\u1e9e\ufb01\u0345\uff41\uff11\u0661\u00aa\u00e9\u0391"
+            shapes = ["$%s", "${%s}", "$(%s)", "$a%s", "${a%s}", "$(a%s)", "$a%sb", "${a%sb}", "$%sa", "${%sa}", "$(%sa)", "$_%s", "$a1%s"]
+            for c in specials:
+                for shape in shapes:
+                    _run_string(res, shape % c)
+                for w in (c, "a" + c, c + "a", "_" + c, "a1" + c):
+                    r = check_isname(w)
+                    res.evaluations += 1
+                    if r:
+                        res.fail(r[0], {"kind": "isname", "s": w}, r[1])
+            res.exhaustive_parts.append("%d special letters/digits in %d reference shapes" % (len(specials), len(shapes)))
             # brackets inside brackets, beyond the length bound of the full alphabet: '$' followed
             # by every string of up to 7 characters over { ( ) { } a B }
             for L in range(1, 8):
